@@ -84,7 +84,7 @@ PROPS = {
             "SEQ: the client sends one command at a time (C03's quantifier is over command sequences); between suspension points of a handler only data_connection and extra_workers may change",
             "A-um: the shipped MemoryUserManager is the user manager (custom managers are outside the claim); its methods do not suspend",
         ],
-        "not_decided": ["custom user managers", "pipelined commands racing a handler across a suspension point (PIPE interference; DESIGN.md F-C03-a)"],
+        "not_decided": ["custom user managers", "pipelined commands racing a handler across a suspension point are decided for the effect guards of the 18 path/transfer handlers (Server.<verb>#PIPE units; they fail on F-C03-a, a known finding) — not for USER/PASS/QUIT/SYST/REST/PASV/EPSV, whose SEQ units carry the state clauses"],
         "explanation": "",
     },
     "C11": {
@@ -105,7 +105,7 @@ PROPS = {
             "every suspension point of a worker may deliver CancelledError (server shutdown, peer disconnect and ABOR all arrive as cancellation); every backend call may raise PathIOError",
             "A-teardown: while the dispatcher's finally suite waits for the cancelled tasks, those tasks only release (their contracts) and other sessions move shared counters in balanced pairs",
         ],
-        "not_decided": ["liveness: that cancelled tasks terminate, so that asyncio.wait(tasks_to_wait) and Server.close() complete", "sockets held inside CPython", "Server.close() itself (the cancel-and-await loop over self.connections)"],
+        "not_decided": ["liveness: that cancelled tasks terminate, so that asyncio.wait(tasks_to_wait) and Server.close() complete", "sockets held inside CPython"],
         "explanation": "",
     },
     "C13": {
@@ -231,7 +231,7 @@ PROPS = {
     "C01": {
         "modules": ["contracts.c01_transfer", "contracts.worker_units", "contracts.c15_throttle", "contracts.server_units"],
         "extra": ["contracts.index.c18_rt"],
-        "unit_filter": ["AsyncStreamIterator.__anext__", "retr_worker@retr", "stor_worker@stor", "stor_worker@appe", "ThrottleStreamIO.read", "ThrottleStreamIO.write", "Server.rest#SEQ", "Server.appe#SEQ", "Server.stor#SEQ", "Client.get_stream", "DataConnectionThrottleStreamIO.__aexit__", "Client.upload/copy-loop"],
+        "unit_filter": ["AsyncStreamIterator.__anext__", "retr_worker@retr", "stor_worker@stor", "stor_worker@appe", "ThrottleStreamIO.read", "ThrottleStreamIO.write", "Server.rest#SEQ", "Server.appe#SEQ", "Server.stor#SEQ", "Client.get_stream", "DataConnectionThrottleStreamIO.__aexit__", "Client.upload/copy-loop", "Client.upload/file-branch", "Client.download/file-branch"],
         "level": "proof",
         "trusted_base": [T_PY, T_ENGINE, T_SOLVER, T_AIO, T_CONN, "abstract backend file (assumed contract): sequential access after an optional seek; 'wb' truncates, 'ab' appends whatever was seeked, 'r+b' keeps the content; a write at position p pads with zeros beyond the end (pyvc/backend.py:FileHandle)"],
         "assumptions": [
@@ -241,7 +241,7 @@ PROPS = {
         "not_decided": [
             "kernel/TCP delivering what was written (T-aio)",
             "'every later download, stat or listing reflects the new content' beyond 'file and data stream closed before the completion reply' (backend visibility)",
-            "Client.download's copy loop (mirror image of the upload loop, which is under contract) and get_passive_connection (TYPE, then EPSV/PASV with fallback)",
+            "Client.get_passive_connection (TYPE, then EPSV/PASV with fallback) is used through an assumed summary",
             "that MemoryPathIO / Python file objects satisfy the abstract file contract (see C18)",
         ],
         "explanation": "",
@@ -269,7 +269,6 @@ PROPS = {
         "assumptions": ["SEQ: one client operation at a time"],
         "not_decided": [
             "step contracts are discharged for Client.upload/download placement, Client.upload's copy loop, AsyncLister.__anext__ (loops unrolled twice), make_directory (depth <= 3), remove (fan-out <= 2); the whole-tree statement (identical structure and contents for every tree shape) is an induction over the tree using these step contracts and is covered only by the bounded run-time checker rt/c09_rt.py (real client against a real in-process server; 4 tree shapes of depth <= 3, destinations '', 'd', 'd/e', '/d/e', write_into on/off, 2 working directories) — labelled bounded",
-            "the copy loops of upload/download (client side of C01) are not under contract",
         ],
         "explanation": "",
     },
